@@ -259,3 +259,25 @@ Lemma wrapper_of_type_spec ws :
 Proof.
   destruct ws as [|a [|b ws]]; simpl; repeat split; intros; try congruence; try lia; try discriminate.
 Qed.
+
+(* ---- the kind a getdim_ alias resolves is EXACTLY what follows "getdim_" (underscores, digits, anything) ---- *)
+Lemma substring_all k : substring 0 (String.length k) k = k.
+Proof. induction k as [|c k IH]; simpl; [reflexivity | now rewrite IH]. Qed.
+
+Lemma getdim_kind_exact k : is_getdim ("getdim_" ++ k) = true /\ dim_kind ("getdim_" ++ k) = k.
+Proof.
+  split; [destruct k; reflexivity|].
+  unfold dim_kind.
+  replace (String.length ("getdim_" ++ k) - 7)%nat with (String.length k) by (simpl; lia).
+  simpl. apply substring_all.
+Qed.
+
+(* hence on every chain: getdim_<k>() is getshape_<k>()[0] for that very k, seen from the first KDDataset-family layer *)
+Lemma getdim_alias_exact_kind ls r k :
+  Forall (fun n => own n ("getdim_" ++ k) = None) (nodes_of ls r) ->
+  aquery (abuild ls r) ("getdim_" ++ k) =
+  shape1 (nearest (nodes_of (skip_to_kd ls) r) ("getshape_" ++ k)).
+Proof.
+  intros H. destruct (getdim_kind_exact k) as [Hd Hk].
+  rewrite (getdim_chain ls r _ Hd H). now rewrite Hk.
+Qed.
